@@ -70,11 +70,13 @@ PROPS = {
         "note": "Trusted: Lean kernel; axioms propext, Classical.choice, Quot.sound. Go map order and goroutine schedules can be sampled, not enumerated. A genuine defect found by this check "
                 "(portfolio weights rows with equal weight in map order) was repaired in /repo (fix: commit 795b0e8). Findings on the unchanged code (known_findings.jsonl), recognised by their exact shape only: "
                 "returns-prints-periods-before-a-late-failure (portfolio returns prints a schedule-dependent prefix of its report when the journal is rejected on a late day; exit status stable) and "
-                "print-same-day-directives-of-different-files-in-arrival-order (print / transcode: same-day price / open / balance / close directives of different included files come out in loader arrival order).",
+                "print-same-day-directives-of-different-files-in-arrival-order (print / transcode: same-day price / open / balance / close directives of different included files come out in loader arrival order), "
+                "returns-ill-conditioned-period-float-sum-in-arrival-order (portfolio returns on several files: NaN% or +Inf% in a period whose denominator vanishes). A second genuine defect found by this check (register -d / -a: "
+                "rows tied on destination account and commodity in map order) was repaired in /repo (fix: commit e77962c).",
         "rule": "inputs built for ties: sibling accounts with equal values, diamond-shaped price graphs with inconsistent cross rates, equally likely bayes candidates split over included training "
                 "files, several currencies per day in revolut2 statements, same-day directives; plus lifecycle journals with chained prices. class = (command, exit, output size). "
                 "Stream `failing`: include trees (2-30 files of very different or equal sizes, nested) with 0-2 faults at the first / a middle / the last position of any file (half-typed directive, include of a missing file / a directory / an ancestor, "
-                "directive rejected by the journal) under infer -t, balance, print, check [--write], transcode, register, portfolio weights / returns: stdout bytes and exit status of rejected inputs must not depend on the schedule either; class = (command, faults, exit, output size).",
+                "directive rejected by the journal) under infer -t, balance, print, check [--write], transcode, register (with -d / -a / -s), portfolio weights / returns: stdout bytes and exit status of rejected inputs must not depend on the schedule either; class = (command, faults, exit, output size).",
         "assumptions": [],
     },
     "C05": {
@@ -401,7 +403,9 @@ PROPS = {
         "rule": "streams: seq (in-process cpr.Seq on generated stage functions with failure specs, schedule perturbed by KNUT_VERIF_SEED and in-function yields; "
                 "result vs model, item-labelled trace vs Lean acceptor/monitor), trace (knut commands on generated journals with KNUT_VERIF_TRACE; trace vs acceptor, "
                 "output vs unperturbed run), race (processor matrix under the -race binary with several seeds), loader (include trees incl. error trees: census vs model, "
-                "no-loss/no-dup monitor, timeouts). A class = (stream, stages/items bucket, failure shape) resp. (command, flags) resp. (tree shape, error kind).",
+                "no-loss/no-dup monitor, timeouts), grow (journals over 100-600 days in which accounts of depth 2-5, commodities, positions and daily prices keep appearing "
+                "x balance/register with -v and every -m level 1-4 plus random combinations of -m rules, --remap, filters, -s, intervals, windows, --diff, --close=false; race detector and normal binary, perturbed schedules). "
+                "A class = (stream, stages/items bucket, failure shape) resp. (command, flags) resp. (tree shape, error kind).",
         "assumptions": ["stage closures share no mutable state other than the item handed over (checked by the race detector runs, not proved)",
                         "the conc pool records the first error before cancelling the context (pinned source, sourcegraph/conc)"],
         "timeout": {"quick": 900, "thorough": 3000},
@@ -434,7 +438,9 @@ PROPS = {
         "rule": "streams: unicode (all code points), tokens (strings.Fields/ToLower on random and malformed UTF-8), corpus, infer (training: empty / no transactions / one account pair / "
                 "tie-rich repeated transactions / 1-4 files with nested and repeated includes / bookings with macros and the placeholder; target: placeholder on credit, debit, both, mixed, none, "
                 "several bookings, other directives and comments mentioning the placeholder, odd layouts; placeholder: default, custom, Unicode, macro, empty, not-an-account, equal to a training "
-                "account), malformed (byte mutations of target/training), cli (subprocess: stdout, --inplace, training file = target file, missing include, 5/20 repeated runs with KNUT_VERIF_SEED). "
+                "account), scale (sizes on logarithmic ladders: 1-2500 words in the target description, 0-100 % of them unseen in training, distinct or repeated, 0-200/2000 training "
+                "transactions with descriptions of up to hundreds of words, vocabulary 3-3000, 2-40 accounts; 8/150 of these also through the command), "
+                "malformed (byte mutations of target/training), cli (subprocess: stdout, --inplace, training file = target file, missing include, 5/20 repeated runs with KNUT_VERIF_SEED). "
                 "class = (outcome, placeholder kind, number of placeholder fields per side, replaced/kept, sizes, generator kinds).",
         "assumptions": ["scores closer than 1e-9 relative are treated as ties the float evaluation may break either way",
                         "every score the code computes is finite (logarithms of positive ratios), so the first candidate always beats -Inf"],
